@@ -12,7 +12,7 @@ from concurrent.futures import ThreadPoolExecutor
 
 VERIF = os.path.dirname(os.path.dirname(os.path.abspath(__file__)))
 REPO = os.environ.get("XV_REPO", "/repo")
-BUILD = os.path.join(VERIF, "build")
+BUILD = os.environ.get("XV_BUILD", os.path.join(VERIF, "build"))
 OBJ = os.path.join(BUILD, "obj")
 OUT = os.path.join(BUILD, "out")
 CXX = os.environ.get("XV_CXX", "/usr/bin/c++")
@@ -176,6 +176,120 @@ def build_modules(harness, archs, extra_flags=(), src=None, suffix=""):
             else:
                 errs[arch] = log
     return res, errs
+
+
+TYPE_CODES = ["int8_t", "uint8_t", "int16_t", "uint16_t", "int32_t", "uint32_t", "int64_t", "uint64_t", "float", "double"]
+
+
+def harness_features(src):
+    return re.findall(r"^\s*XV_FEATURE\((\w+)\)", open(src).read(), re.M)
+
+
+def _tree_hash():
+    h = hashlib.sha1()
+    for root in (os.path.join(REPO, "include"), os.path.join(VERIF, "harness"), os.path.join(VERIF, "engine")):
+        for d, _, files in sorted(os.walk(root)):
+            for f in sorted(files):
+                if f.endswith((".hpp", ".h", ".cpp")):
+                    p = os.path.join(d, f)
+                    h.update(p.encode())
+                    h.update((file_hash(p) or "").encode())
+    return h.hexdigest()
+
+
+def probe_compile(key, argv):
+    """Trial compilation (-fsyntax-only) with a cached verdict. Returns True when it compiles."""
+    d = os.path.join(OBJ, "probe")
+    os.makedirs(d, exist_ok=True)
+    stamp = os.path.join(d, key + ".json")
+    dep = os.path.join(d, key + ".d")
+    cmdline = " ".join(shlex.quote(x) for x in argv)
+    try:
+        st = json.load(open(stamp))
+    except Exception:
+        st = None
+    if st and st.get("cmd") == cmdline:
+        if st.get("deps") is not None:
+            if all(file_hash(p) == h for p, h in st["deps"].items()):
+                return st["ok"]
+        elif st.get("tree") == _tree_hash():
+            return st["ok"]
+    p = subprocess.run(argv + ["-fsyntax-only", "-MMD", "-MF", dep], stdout=subprocess.DEVNULL, stderr=subprocess.DEVNULL)
+    ok = p.returncode == 0
+    rec = {"cmd": cmdline, "ok": ok}
+    deps = _parse_depfile(dep) if ok else None
+    if deps:
+        rec["deps"] = {x: file_hash(x) for x in deps}
+    else:
+        rec["deps"] = None
+        rec["tree"] = _tree_hash()
+    json.dump(rec, open(stamp, "w"))
+    return ok
+
+
+def build_modules_probed(harness, archs, extra_flags=()):
+    """Like build_modules, for harnesses whose XV_FEATURE(name) units are accepted by the library only for some
+    (architecture, element type) combinations: acceptance is decided by trial compilation.
+    Returns ({arch: path}, {arch: log}, {arch: {feature: [types not accepted]}})."""
+    src = os.path.join(VERIF, "harness", "h_%s.cpp" % harness)
+    feats = harness_features(src)
+    res, errs, rejected = {}, {}, {}
+
+    def flags_for(masks):
+        return ["-DXV_OFF_%s=%d" % (f, masks.get(f, 0)) for f in feats]
+
+    def one(arch):
+        target = os.path.join(OBJ, "%s.%s.so" % (arch, harness))
+        mfile = target + ".masks.json"
+        # 1. reuse the last accepted masks if the object is still valid with them
+        try:
+            masks = json.load(open(mfile))
+        except Exception:
+            masks = {}
+        ok, log = build_object(target, harness_cmd(arch, src, list(extra_flags) + flags_for(masks)), [src])
+        if ok and masks and not _masks_still_needed(arch, src, feats, masks, extra_flags):
+            ok = False  # something that was rejected compiles now: redo from scratch
+            masks = {}
+            ok, log = build_object(target, harness_cmd(arch, src, list(extra_flags) + flags_for(masks)), [src])
+        if not ok:
+            # 2. probe every feature, all types at once first, then type by type
+            masks = {}
+            for f in feats:
+                base = harness_cmd(arch, src, list(extra_flags) + ["-DXV_PROBING", "-DXV_PROBE_FEATURE=" + f], shared=False)
+                allmask_others = ["-DXV_OFF_%s=1023" % g for g in feats]
+                if probe_compile("%s.%s.%s.all" % (arch, harness, f), base + allmask_others + ["-DXV_PROBE_ALL_TYPES"]):
+                    continue
+                m = 0
+                for code, tn in enumerate(TYPE_CODES):
+                    if not probe_compile("%s.%s.%s.%s" % (arch, harness, f, tn), base + allmask_others + ["-DXV_PROBE_TYPE=" + tn]):
+                        m |= 1 << code
+                masks[f] = m
+            ok, log = build_object(target, harness_cmd(arch, src, list(extra_flags) + flags_for(masks)), [src])
+            if ok:
+                json.dump(masks, open(mfile, "w"))
+        return arch, target, ok, log, masks
+
+    with ThreadPoolExecutor(max_workers=NPROC) as ex:
+        for arch, target, ok, log, masks in ex.map(one, archs):
+            if ok:
+                res[arch] = target
+                rejected[arch] = {f: [TYPE_CODES[c] for c in range(10) if m >> c & 1] for f, m in masks.items() if m}
+            else:
+                errs[arch] = log
+    return res, errs, rejected
+
+
+def _masks_still_needed(arch, src, feats, masks, extra_flags):
+    """True when every (feature, type) recorded as rejected is still rejected by the current tree."""
+    harness = os.path.basename(src)[2:-4]
+    for f, m in masks.items():
+        base = harness_cmd(arch, src, list(extra_flags) + ["-DXV_PROBING", "-DXV_PROBE_FEATURE=" + f], shared=False)
+        allmask_others = ["-DXV_OFF_%s=1023" % g for g in feats]
+        for code, tn in enumerate(TYPE_CODES):
+            if m >> code & 1:
+                if probe_compile("%s.%s.%s.%s" % (arch, harness, f, tn), base + allmask_others + ["-DXV_PROBE_TYPE=" + tn]):
+                    return False
+    return True
 
 
 def build_driver(name="xvdrive", libs=("-ldl", "-lpthread"), extra=()):
